@@ -27,6 +27,7 @@ pub fn context_alphabet() -> Vec<(&'static str, I)> {
         ("zero-slot", I::new(0, 0, 0, 0, 0)),
         ("call 1", isa::call_helper(1)),
         ("jeq r0,0,+0", I::new(0x15, 0, 0, 0, 0)),
+        ("stxdw [r10-8],r1", I::new(0x7b, 10, 1, -8, 0)),
     ]
 }
 
@@ -244,6 +245,7 @@ fn enumerate(s: &mut Sink, mode: Mode, g: &mut u64) {
     s.meta.insert("alphabet".into(), json!({
         "focus": "all 256 opcodes x dst {0,9,10,11,15} x src {0,1,2,10,11,15} x off {-n-1..n+1, 32767, -32767, -32768} x imm {0,1,2,-1,-2,8,16,32,64,n,-n,-n-1,i32::MIN,i32::MAX}",
         "context": ctx.iter().map(|c| c.0).collect::<Vec<_>>(),
+        "context_note": "the store is in the context so that per-instruction verifier state that must be reset (is-a-store flag) is exercised",
         "register_bytes": "every opcode x all 256 register bytes in a fixed context",
         "lengths": "every length 0..=33 bytes; 8n for n <= 5; 8*10^6 and 8*(10^6+1)",
         "cranelift_focus_opcodes": if mode == Mode::C12 { json!(cl_ops.len()) } else { json!(null) },
@@ -445,12 +447,12 @@ fn c12_sizing(s: &mut Sink, g: &mut u64) {
                 }
                 prog.push(isa::EXIT);
                 let bytes = isa::enc(&prog);
-                for eng in [Eng::Jit, Eng::Cl] {
+                for (eng, kind) in [(Eng::Jit, VmKind::NoData), (Eng::Jit, VmKind::Fixed(0x40, 0x50)), (Eng::Jit, VmKind::Mbuff), (Eng::Cl, VmKind::NoData)] {
                     if eng == Eng::Cl && !(thorough || len <= 300 || len % 97 == 0) {
                         continue;
                     }
                     let r = catch(|| {
-                        let mut vm = AnyVm::new(VmKind::NoData, Some(&bytes)).map_err(|e| format!("load: {e}"))?;
+                        let mut vm = AnyVm::new(kind, Some(&bytes)).map_err(|e| format!("load: {e}"))?;
                         vm.register_helper(1, h1)?;
                         vm.compile(eng)
                     });
@@ -462,10 +464,10 @@ fn c12_sizing(s: &mut Sink, g: &mut u64) {
                             if e.starts_with("load") {
                                 s.violation(&format!("verifier/sizing-{name}/rejects-template"), e, json!({"kind":"none"}));
                             } else {
-                                s.violation(&format!("{}/sizing-{name}/compile-err", eng.name()), format!("length {len}: {e}"), json!({"kind":"compile-sizing","unit":name,"len":len,"eng":eng.name()}));
+                                s.violation(&format!("{}/sizing-{name}/compile-err", eng.name()), format!("length {len}: {e}"), json!({"kind":"compile-sizing","unit":name,"len":len,"eng":eng.name(),"vm":vm::kind_name(kind)}));
                             }
                         }
-                        Err(m) => s.violation(&format!("{}/sizing-{name}/compile-{}", eng.name(), panic_class(&m)), format!("{len} x {name}: compilation panicked: {m}"), json!({"kind":"compile-sizing","unit":name,"len":len,"eng":eng.name()})),
+                        Err(m) => s.violation(&format!("{}/sizing-{name}/compile-{}", eng.name(), panic_class(&m)), format!("{len} x {name}: compilation panicked: {m}"), json!({"kind":"compile-sizing","unit":name,"len":len,"eng":eng.name(),"vm":vm::kind_name(kind)})),
                     }
                 }
             }
@@ -475,7 +477,7 @@ fn c12_sizing(s: &mut Sink, g: &mut u64) {
             s.count("distinct_nontrivial", nn);
         }
     }
-    s.done("sizing: every length 1..3000 of 8 instruction kinds (JIT all; Cranelift all in thorough)");
+    s.done("sizing: every length 1..3000 of 8 instruction kinds (JIT on no-data, fixed-metadata and metadata VMs: the prologues differ; Cranelift all lengths in thorough)");
     // jumps: k forward/backward jumps (fix-up tables); very long programs
     let idx = *g;
     *g += 1;
@@ -650,7 +652,7 @@ pub fn replay_compile_sizing(v: &Value) -> Vec<String> {
     prog.push(isa::EXIT);
     let bytes = isa::enc(&prog);
     let r = catch(|| {
-        let mut vm = AnyVm::new(VmKind::NoData, Some(&bytes)).map_err(|e| format!("load: {e}"))?;
+        let mut vm = AnyVm::new(v["vm"].as_str().map_or(VmKind::NoData, vm::parse_kind), Some(&bytes)).map_err(|e| format!("load: {e}"))?;
         vm.register_helper(1, h1)?;
         vm.compile(eng)
     });
